@@ -182,7 +182,7 @@ def run(pid, tier):
     common.standard_proof_phase(res, ['cli'], 'Properties/%s.v' % pid)
     r = common.rng(pid)
     gen = {'C13': cli_leg.scenarios_c13, 'C14': cli_leg.scenarios_c14, 'C15': cli_leg.scenarios_c15}[pid]
-    scs = gen(r, tier if not res.broken else 'thorough')
+    scs = gen(r, tier if not res.broken or tier == 'thorough' else 'search')
     obs = cli_leg.run_many(scs)
     # correspondence: the generated model must predict what the real tool did (scenarios without symlinked targets / argparse-level rejections)
     idx = [i for i, sc in enumerate(scs) if not (sc.get('output') and '--in-place' in sc.get('flags', []))
